@@ -42,6 +42,10 @@ func Printf(ctx *runtime.Task, funcExpr *ast.CallExpr) *errchain.PlError {
 		if v, _, err := runtime.RunStmt(ctx, funcExpr.Param[i]); err != nil {
 			return err
 		} else {
+			if containsItself(v, map[uintptr]struct{}{}) {
+				return runtime.NewRunError(ctx,
+					"cannot format a list or map that contains itself", funcExpr.Param[i].StartPos())
+			}
 			outdata = append(outdata, v)
 		}
 	}
